@@ -129,6 +129,27 @@ def orderOK (g : TGraph) (flat : Bool) : Bool :=
 def nestAllOK (g : TGraph) (flat : Bool) : Bool :=
   (roots g flat).all fun i => nestOK g flat (g.elems.length + 1) i
 
+/-! ## canonical numbering (what the export traversal produces) -/
+
+def TVal.idx? : TVal → Option Nat
+  | .ref (.idx j) => some j
+  | _ => none
+
+/-- all element references of an element, in attribute/value order. -/
+def TElem.refs (e : TElem) : List Nat := e.attrs.flatMap fun a => a.vals.filterMap TVal.idx?
+
+def refsAtT (g : TGraph) (i : Nat) : List Nat :=
+  match g.elems[i]? with
+  | some e => e.refs
+  | none => []
+
+/-- every element but the first is referenced by an element with a smaller index — the numbering
+that the `for elem in elements: … append` traversal produces (each element is appended while an
+earlier one is processed); in particular every element is reachable from element 0. Decidable. -/
+def bfsOrdered (g : TGraph) : Bool :=
+  (List.range g.elems.length).all fun j =>
+    j == 0 || (List.range j).any fun i => (refsAtT g i).contains j
+
 /-! ## sessions: a call's result depends on its argument only
 
 The model has no state: every export / parse is a function of its argument.  A *session* is a list
